@@ -284,10 +284,14 @@ def parse_fields(tokens):
             cur = t
             out[cur] = []
         elif cur is not None:
-            if cur in ("bin", "fbin", "cnt", "per", "nx"):
-                out[cur].append(int(t))
-            else:
-                out[cur].append(float.fromhex(t))
+            # a token cut short by a crash of the implementation (or garbage) never compares equal
+            try:
+                if cur in ("bin", "fbin", "cnt", "per", "nx"):
+                    out[cur].append(int(t))
+                else:
+                    out[cur].append(float.fromhex(t))
+            except ValueError:
+                out[cur].append(float("nan"))
     return out
 
 
@@ -768,7 +772,7 @@ def tie_case(run, c, im, mline):
         bad = compare_fields(a, b)
         if bad:
             # component names share their first token with the oracle signatures of the same family
-            comp = ("force:" if bad in ("cf", "af") else "sample:") + bad
+            comp = {"cf": "force:cf", "af": "force:af", "go": "sample:gradient", "tf": "sample:sum:tf"}.get(bad, "sample:" + bad)
             run.mismatch(comp, {"case": c, "step": t}, {k_: a.get(k_) for k_ in SHOWN}, {k_: b.get(k_) for k_ in SHOWN})
             return
 
